@@ -356,7 +356,7 @@ pub fn run_stack<S: Spec, IC: IcKind<Idx<S>> + Default>(
             match op {
                 SOp::Copy { slot, v, form } => {
                     let si = *slot as usize % 2;
-                    if !accepted::<S>(&slots[si].trained, v) {
+                    if !accepted::<S>(&slots[si].trained, v) || !S::admissible(&slots[si].m, v) {
                         ev.hit("copy-skipped-outside-acceptance");
                         continue;
                     }
